@@ -48,13 +48,13 @@ ASSUMPTIONS = [
 SEG = 4
 CODES = ["IGNORE", "CANCEL", "ABANDON"]
 SITES = [
-    "src_ack_limit", "src_check_limit", "dst_ack_limit", "dst_nak_limit", "dst_check_limit", "dst_csum_eof", "dst_csum_expiry", "dst_csum_acked",
+    "src_ack_limit", "src_check_limit", "dst_ack_limit", "dst_nak_limit", "dst_check_limit", "dst_csum_eof", "dst_csum_expiry", "dst_csum_acked", "dst_csum_deferred",
     "dst_size_fd_nak", "dst_size_fd_ack", "dst_size_eof", "dst_store_nodir", "dst_store_create", "dst_store_truncate", "src_cancel_req", "dst_cancel_req",
 ]
 SITE_COND = {
     "src_ack_limit": "POSITIVE_ACK_LIMIT_REACHED", "src_check_limit": "CHECK_LIMIT_REACHED", "dst_ack_limit": "POSITIVE_ACK_LIMIT_REACHED",
     "dst_nak_limit": "NAK_LIMIT_REACHED", "dst_check_limit": "CHECK_LIMIT_REACHED", "dst_csum_eof": "FILE_CHECKSUM_FAILURE",
-    "dst_csum_expiry": "FILE_CHECKSUM_FAILURE", "dst_csum_acked": "FILE_CHECKSUM_FAILURE", "dst_size_fd_nak": "FILE_SIZE_ERROR",
+    "dst_csum_expiry": "FILE_CHECKSUM_FAILURE", "dst_csum_acked": "FILE_CHECKSUM_FAILURE", "dst_csum_deferred": "FILE_CHECKSUM_FAILURE", "dst_size_fd_nak": "FILE_SIZE_ERROR",
     "dst_size_fd_ack": "FILE_SIZE_ERROR", "dst_size_eof": "FILE_SIZE_ERROR", "dst_store_nodir": "FILESTORE_REJECTION",
     "dst_store_create": "FILESTORE_REJECTION", "dst_store_truncate": "FILESTORE_REJECTION", "src_cancel_req": "CANCEL_REQUEST_RECEIVED",
     "dst_cancel_req": "CANCEL_REQUEST_RECEIVED",
@@ -74,7 +74,7 @@ def run_scenario(case):
     size = nseg * SEG - case.get("short", 0)
     content = _content(size)
     mode = {"src_ack_limit": "ACK", "src_check_limit": "NAK", "dst_ack_limit": "ACK", "dst_nak_limit": "ACK", "dst_check_limit": "NAK", "dst_csum_eof": "NAK",
-            "dst_csum_expiry": "NAK", "dst_csum_acked": "ACK", "dst_size_fd_nak": "NAK", "dst_size_fd_ack": "ACK"}.get(site, case.get("mode", "ACK"))
+            "dst_csum_expiry": "NAK", "dst_csum_acked": "ACK", "dst_csum_deferred": "ACK", "dst_size_fd_nak": "NAK", "dst_size_fd_ack": "ACK"}.get(site, case.get("mode", "ACK"))
     closure = bool(case.get("closure", False)) or site == "src_check_limit"
     cfg = {
         "mode": mode, "closure": closure, "crc_type": case.get("csum", "CRC_32"), "max_seg": SEG, "max_pkt": 64,
@@ -133,6 +133,10 @@ def run_scenario(case):
         elif site == "dst_csum_acked":
             bad = bytes(b ^ 0x40 for b in content[miss * SEG : (miss + 1) * SEG])
             script = [("pdu", md)] + [x if i != miss else ("pdu", fd(i, bad)) for i, x in enumerate(allfd)] + [eof(), ("idle",)]
+        elif site == "dst_csum_deferred":
+            # the file becomes complete through the deferred lost segment procedure, with a corrupted re-sent segment
+            bad = bytes(b ^ 0x40 for b in content[miss * SEG : (miss + 1) * SEG])
+            script = [("pdu", md)] + [x for i, x in enumerate(allfd) if i != miss] + [eof(), ("until", "NAK"), ("pdu", fd(miss, bad))]
         elif site in ("dst_size_fd_nak", "dst_size_fd_ack"):
             beyond = FileDataPdu(conf(), FileDataParams(b"\x55" * SEG, size - 1 + case.get("variant", 0)))
             script = [("pdu", md)] + [x for i, x in enumerate(allfd) if i != miss] + [eof()]
@@ -152,6 +156,33 @@ def run_scenario(case):
     reached = False
     all_inds = []
     trig = None
+    if case.get("prior"):
+        # the same handler object first carried a short unacknowledged transaction that was cancelled by its user
+        if side == "src":
+            from cfdppy.request import PutRequest as _PR
+
+            (root / "prior.bin").write_bytes(b"0123456789")
+            # the put request of the scenario is already accepted only when the handler is idle: issue the prior one first
+            h.reset()
+            h.put_request(_PR(UnsignedByteField(cfg["dst_id"][1], cfg["dst_id"][0]), root / "prior.bin", root / "prior_dst.bin", sim.MODES["NAK"], False))
+            rig.call(None)
+            rig.call(None)
+            rig.cancel()
+            for _ in range(4):
+                rig.call(None)
+            ok_prior = h.states.state.name == "IDLE"
+            if ok_prior:
+                h.put_request(_PR(UnsignedByteField(cfg["dst_id"][1], cfg["dst_id"][0]), root / "src.bin", root / "dst.bin", sim.MODES[mode], closure))
+        else:
+            pconf = sim.pdu_conf_for(cfg, seq - 1, "NAK")
+            rig.call(MetadataPdu(pconf, MetadataParams(False, sim.CSUMS[cfg["crc_type"]], 10, "/s/p.bin", str(root / "prior_dst.bin"))))
+            rig.cancel()
+            for _ in range(3):
+                rig.call(None)
+            ok_prior = h.states.state.name == "IDLE"
+        if not ok_prior:
+            return Result([], False, ["prior-transaction-did-not-end"], {})
+        del rig.log[:]
 
     def note(label, res):
         trace.append([label, h.step.name, None if res.exc is None else type(res.exc).__name__, [sim.pdu_kind(p) for p in res.out], [(f[2], f[4]) for f in res.faults]])
@@ -203,7 +234,7 @@ def run_scenario(case):
             # declared earlier than the scripted call (e.g. limit 1): that call is the declaring one
             trig = res
             break
-    classes = [f"site:{site}", f"code:{code}", f"mode:{mode}"]
+    classes = [f"site:{site}", f"code:{code}", f"mode:{mode}"] + (["after-prior-cancelled-transaction"] if case.get("prior") else [])
     if not setup_ok and not vs:
         return Result([], False, classes + ["setup-did-not-reach-site"], {"trace": trace})
     if vs:
@@ -237,7 +268,7 @@ def run_scenario(case):
     others = [f for f in trig.faults if f[4] != cond]
     if site in ("src_cancel_req", "dst_cancel_req"):
         # a request, not a declared fault: only negative clauses
-        bad = [f for f in trig.faults if f[4] != cond]
+        bad = [f for f in trig.faults if f[4] != cond or f[2] != code]
         if bad:
             vs.append(verdict("no-foreign-callback", f"{sig}/foreign-callback", str(bad)))
         return Result(vs, True, classes + ["request-row"], {"trace": trace})
@@ -359,6 +390,10 @@ def exhaustive_cases(shard, nshards):
                 if mode:
                     c["mode"] = mode
                 yield c
+                if lim == 2:
+                    c2 = dict(c)
+                    c2["prior"] = True
+                    yield c2
     for cond in ConditionCode:
         for code in ["IGNORE", "CANCEL", "ABANDON", "SUSPEND"]:
             idx += 1
@@ -379,7 +414,7 @@ def sampled_case(draw):
         "nak_limit": draw(st.integers(1, 4)), "check_limit": draw(st.integers(2 if site == "dst_csum_expiry" else 1, 4)), "nseg": nseg,
         "short": draw(st.integers(0, SEG - 1)) if draw(st.booleans()) else 0, "miss": draw(st.integers(0, 5)), "at": draw(st.integers(0, nseg)),
         "mode": draw(st.sampled_from(["ACK", "NAK"])), "csum": draw(st.sampled_from(["CRC_32", "CRC_32C", "MODULAR"])),
-        "immediate_nak": draw(st.booleans()), "disposition": draw(st.booleans()),
+        "immediate_nak": draw(st.booleans()), "disposition": draw(st.booleans()), "prior": draw(st.integers(0, 3)) == 0,
     }
 
 
@@ -391,7 +426,7 @@ def shard(ctx):
     out = Out()
     enum_search(out, ctx["known"], exhaustive_cases(ctx["shard"], ctx["nshards"]), evaluate, stop_after=30)
     out.extra["exhaustive_cases"] = out.evaluations
-    out.extra["exhaustive_part"] = "16 sites x 3 handler codes x closure x variant x limit 1..3 (x mode where the site exists in both); configuration API: every ConditionCode x 4 handler codes"
+    out.extra["exhaustive_part"] = "17 sites x 3 handler codes x closure x variant x limit 1..3 (x mode where the site exists in both), for limit 2 also on a handler object that first carried a user-cancelled transaction; configuration API: every ConditionCode x 4 handler codes"
     out.exhaustive = False
     hyp_search(out, ctx["known"], sampled_case(), evaluate, PARAMS[ctx["tier"]], ctx["seed"])
     sim.cleanup_sandbox()
